@@ -15,9 +15,10 @@ def selection_for(rng, zs):
     from basis_set_exchange import lut
 
     def one(z):
-        c = rng.randrange(5)
+        c = rng.randrange(6)
         s = lut.element_sym_from_Z(z)
-        return [z, str(z), s, s.upper(), s.capitalize()][c]
+        # a number may carry leading zeros ('08'): int() reads it as 8
+        return [z, str(z), s, s.upper(), s.capitalize(), rng.choice(['0', '00']) + str(z)][c]
 
     items, exp = [], set()
     for _ in range(rng.randint(1, 4)):
@@ -91,6 +92,14 @@ def work(ctx, item):
                 ctx.violation(site, fp, 'default version is not the highest listed (%s)' % highest, {'kind': 'version', 'name': name, 'version': None})
     # selections
     zs = sorted(int(z) for z in full['elements'])
+    for sel in ('0%d' % zs[0], '00%d' % zs[-1], ' 0%d ' % zs[0]):
+        # a bare numeric string with leading zeros is the element of that number
+        a = impl.call(bse.get_basis, disp, elements=sel, version=version)
+        b = impl.call(bse.get_basis, disp, elements=[int(sel)], version=version)
+        ctx.case((name, version, 'zero-padded', sel), True, 'selection:zero-padded')
+        if a != b:
+            ctx.violation(site, 'zero-padded', 'elements=%r differs from elements=[%d] (%s vs %s)' % (sel, int(sel), a[0] if a[0] == 'ok' else a[1], b[0] if b[0] == 'ok' else b[1]),
+                          {'kind': 'selection', 'name': name, 'version': version, 'selection': sel})
     for _ in range(ctx.budget(6, 30)):
         sel, exp = selection_for(rng, zs)
         a = impl.call(bse.get_basis, randcase(rng, disp), elements=sel, version=version)
